@@ -510,7 +510,7 @@ func init() {
 	vx.Register(&vx.Prop{
 		ID:    "C19",
 		Level: "exploration",
-		Rule: "the fitgen command built from the tree is run on product-profile selections: deviation 0 = each of the 5 bundled workbooks as .xlsx with -sdk and as FitSDKRelease_X.Y.zip, each twice; deviation 1 = every single-row toggle of the example column (disable an enabled row / enable a disabled one) that an independent dependency analysis allows, quick: the messages of 21.40 that carry components or subfields, thorough: every message of all 5 workbooks; subfield rows of dynamic fields disabled individually and all together; deviation 2 = dependency-closed pairs (a field with enabled subfields together with the reference field they switch on; a component source together with one of its targets). " +
+		Rule: "the fitgen command built from the tree is run on product-profile selections: deviation 0 = each of the 5 bundled workbooks as .xlsx with -sdk and as FitSDKRelease_X.Y.zip, each twice, as a neutrally named zip with -sdk, and as a named zip with -sdk naming another version (the flag overrides); deviation 1 = every single-row toggle of the example column (disable an enabled row / enable a disabled one) that an independent dependency analysis allows, quick: the messages of 21.40 that carry components or subfields, thorough: every message of all 5 workbooks; subfield rows of dynamic fields disabled individually and all together; deviation 2 = dependency-closed pairs (a field with enabled subfields together with the reference field they switch on; a component source together with one of its targets). " +
 			"Oracle: exit status 0, the four files byte-identical across the two runs (the second run regenerates in place, into a directory that already holds a larger earlier output; and across input forms), declared SDK version, audit of struct fields and lookup entries against an independent stdlib reading of the workbook (one field + one entry per enabled row with its number, base type, array flag; nothing for disabled rows), and a go/types check of the generated files together with the hand-written support code: any error located in a generated file, or any support-code error outside the stock skew set of that workbook, is a violation. distinct = distinct generated outputs",
 		Assumptions: []string{"rows with components, component targets, subfield reference fields of enabled rows and fields the hand-written code selects are not toggled (this only narrows the explored set)", "the 21.115 workbook the checked-in profile was generated from is not in the repository"},
 		Run:         runC19,
@@ -654,6 +654,37 @@ func runC19(w *vx.W) {
 				w.Violation("fitgen-fails", fmt.Sprintf("workbook %s as SDK zip: fitgen exits with %v: %s", ver, errz, trunc(lastLines(logz, 3), 400)), rep)
 			} else if d := dirsEqual(dz, dx); d != "" {
 				w.Violation("zip-vs-xlsx", fmt.Sprintf("workbook %s: output for the SDK zip differs from the output for the .xlsx with -sdk: %s", ver, d), rep)
+			}
+			// the -sdk flag "provides or overrides" the version for either input form: a zip with a neutral name plus
+			// -sdk, and a zip named for this version plus -sdk naming another one
+			{
+				gz := filepath.Join(scratch, "sdk-download.zip")
+				os.WriteFile(gz, zb.Bytes(), 0o644)
+				dg, logg, errg := env.run(gz, ver)
+				w.Eval(1)
+				if errg != nil {
+					w.Violation("fitgen-fails", fmt.Sprintf("workbook %s as a zip with a neutral name and -sdk %s: fitgen exits with %v: %s", ver, ver, errg, trunc(lastLines(logg, 3), 400)), rep)
+				} else if errx == nil {
+					if d := dirsEqual(dg, dx); d != "" {
+						w.Violation("zip-vs-xlsx", fmt.Sprintf("workbook %s: output for a neutrally named zip with -sdk differs from the output for the .xlsx: %s", ver, d), rep)
+					}
+				}
+				os.RemoveAll(dg)
+				other := "16.20"
+				if ver == other {
+					other = "21.40"
+				}
+				do, logo, erro := env.run(zpath, other)
+				w.Eval(1)
+				if erro != nil {
+					w.Violation("fitgen-fails", fmt.Sprintf("SDK zip of %s with -sdk %s: fitgen exits with %v: %s", ver, other, erro, trunc(lastLines(logo, 3), 400)), rep)
+				} else if g, err := auditParse(do); err != nil {
+					w.Violation("generated-code-invalid", fmt.Sprintf("SDK zip of %s with -sdk %s: %v", ver, other, err), rep)
+				} else if g.sdk != other {
+					w.Violation("sdk-version", fmt.Sprintf("SDK zip of %s with -sdk %s: generated code declares SDK %q (the flag overrides the archive name)", ver, other, g.sdk), rep)
+				}
+				os.RemoveAll(do)
+				w.Fam("sdk-flag-with-zip", 2)
 			}
 			os.RemoveAll(dz)
 			os.RemoveAll(dx)
